@@ -1297,3 +1297,66 @@ Proof.
   repeat split; try (intros E; destruct (body (p_content p)); discriminate).
   intros c E. rewrite E in Hb. discriminate.
 Qed.
+
+(** * Part: the tally is exact - no division, no rounding *)
+
+
+Lemma chop_round_mul_prec x : chop_round (x * PREC) = x.
+Proof.
+  assert (HP : 0 < PREC) by (unfold PREC; lia).
+  assert (Hpos : forall y, 0 <= y -> chop_round_pos (y * PREC) = y).
+  { intros y _. unfold chop_round_pos. rewrite Z.mod_mul by lia. cbn [Z.eqb]. apply Z.div_mul. lia. }
+  unfold chop_round. destruct (x * PREC <? 0) eqn:E.
+  - apply Z.ltb_lt in E. replace (- (x * PREC)) with ((- x) * PREC) by lia. rewrite Hpos by nia. lia.
+  - apply Z.ltb_ge in E. apply Hpos. nia.
+Qed.
+
+(* Dec.Mul by a whole number is the exact product of the mantissa and that number *)
+Lemma dec_mul_of_int_exact a n : dec_mul a (dec_of_int n) = a * n.
+Proof. unfold dec_mul, dec_of_int. rewrite Z.mul_assoc. apply chop_round_mul_prec. Qed.
+
+Lemma dec_mul_of_int_exact_l a n : dec_mul (dec_of_int n) a = n * a.
+Proof. unfold dec_mul, dec_of_int. replace (n * PREC * a) with (n * a * PREC) by lia. apply chop_round_mul_prec. Qed.
+
+Lemma sum_votes_weight s f vs : sum_votes s f vs = dec_of_int (weight s f vs).
+Proof.
+  unfold sum_votes, weight, dec_of_int. induction vs as [|v r IH]; cbn [map zsum fold_right]; [reflexivity|].
+  unfold zsum in IH. rewrite IH. unfold dec_of_int. destruct (f v); lia.
+Qed.
+
+(* GetTokenCommitteeProposalResult, exactly, in integers: turnout * 10^18 >= quorum mantissa * supply
+   and yes * 10^18 >= threshold mantissa * (yes + no) - cross-multiplied, nothing divided, nothing rounded *)
+Theorem token_tally_exact s c pid q :
+  c_kind c = CToken q ->
+  let vs := votes_of s pid in
+  let yes := weight s (fun v => v_type v =? 1) vs in
+  let no := weight s (fun v => v_type v =? 2) vs in
+  let total := weight s (fun _ => true) vs in
+  tally s c pid = (q * supply s <=? total * PREC) && (c_threshold c * (yes + no) <=? yes * PREC).
+Proof.
+  intros Hk. unfold tally. rewrite Hk. cbv zeta.
+  rewrite !sum_votes_weight, dec_mul_of_int_exact.
+  replace (dec_of_int (weight s (fun v => v_type v =? 1) (votes_of s pid)) + dec_of_int (weight s (fun v => v_type v =? 2) (votes_of s pid)))
+    with (dec_of_int (weight s (fun v => v_type v =? 1) (votes_of s pid) + weight s (fun v => v_type v =? 2) (votes_of s pid)))
+    by (unfold dec_of_int; lia).
+  rewrite dec_mul_of_int_exact_l. unfold dec_of_int.
+  f_equal. f_equal. lia.
+Qed.
+
+(* GetMemberCommitteeProposalResult, exactly: votes * 10^18 >= threshold mantissa * members *)
+Theorem member_tally_exact s c pid :
+  c_kind c = CMember ->
+  tally s c pid = (c_threshold c * Z.of_nat (List.length (c_members c)) <=? Z.of_nat (List.length (votes_of s pid)) * PREC).
+Proof.
+  intros Hk. unfold tally. rewrite Hk. rewrite dec_mul_of_int_exact. reflexivity.
+Qed.
+
+(* hence: a turnout that misses the quorum by any amount, however small, fails *)
+Corollary token_quorum_missed_fails s c pid q :
+  c_kind c = CToken q ->
+  weight s (fun _ => true) (votes_of s pid) * PREC < q * supply s ->
+  tally s c pid = false.
+Proof.
+  intros Hk H. rewrite (token_tally_exact _ _ _ _ Hk). cbv zeta.
+  apply Bool.andb_false_iff. left. apply Z.leb_gt. exact H.
+Qed.
